@@ -15,6 +15,9 @@ EXPLANATION = (
     "schema properties = _to_abstract_repr keys, NoiseType enum = NoiseTypes literal, _DIFF_NOISE_PARAMS maps onto SimConfig fields, the /1e6 temperature conversion is paired with *1e6; "
     "Observables: names handled by _deserialize_observable = _base_tag of every serialisable Observable subclass = schema definitions, emitted keys are constructor parameters and schema properties; "
     "Results keys written = keys read = schema; SCHEMA: in every object schema with additionalProperties:false, required is a subset of properties (all 7 schema files). "
+    "Register decoders: every returned path of _deserialize_register/_deserialize_register3d depends on name, x, y(, z) of the qubit entries. "
+    "SWAP also covers FIELD-ARG: an argument naming field t of a serialisable dataclass is never bound to a parameter that is a different field of the same class. "
+    "REFLECT: every private class-level attribute is read somewhere under exactly its name (attribute load or getattr constant), and every name read reflectively with a fallback is declared by some class. "
     "SHARED: no method assigns a class attribute (cls.x / Type.x / type(self).x), no class-level mutable literal, no mutable default argument is written through. "
     "NOT decided: equality of decoded objects (runtime)."
 )
